@@ -136,9 +136,9 @@ mutual
         if op = S "last" then pure (.s (jsReceiver t.str ++ S "." ++ ty ++ S "[\"" ++ o ++ S "\"]"))
         else pure (.s (jsReceiver t.str ++ S "." ++ ty ++ S "." ++ o))
       | none => pure (.s ((if of_.isMenusVar then S "_menuBar.menu" else t.str) ++ S "." ++ o))
-    | .propAcc _ obj prop, ind => do
+    | .propAcc _ obj prop ex, ind => do
       let t ← js fm false obj ind
-      if t == Name.s (S "tell_obj") then pure (.s prop) else pure (.s (jsReceiver t.str ++ S "." ++ prop))
+      if t == Name.s (S "tell_obj") ∧ !ex then pure (.s prop) else pure (.s (jsReceiver t.str ++ S "." ++ prop))
     | .keyAcc _ prop, _ =>
       if prop = S "date" ∨ prop = S "time" then .ok (.s (S "_system.date('" ++ prop ++ S "')"))
       else match dictGet PropTables.knownPropertiesOperation prop with
@@ -263,7 +263,7 @@ mutual
     | .spAssign p l r m => .spAssign p (afterJs l) (afterJs r) m
     | .strOp k p a b c => .strOp k p (afterJs a) (afterJs b) (afterJs c)
     | .unaryStr op p t x => .unaryStr op p t (afterJs x)
-    | .propAcc p o pr => .propAcc p (afterJs o) pr
+    | .propAcc p o pr ex => .propAcc p (afterJs o) pr ex
     | .keyAcc p pr => .keyAcc p pr
     | .menuItemAcc p m i => .menuItemAcc p (afterJs m) (afterJs i)
     | .menuItemsAcc p m => .menuItemsAcc p (afterJs m)
